@@ -104,8 +104,48 @@ class ShardResult:
         }
 
 
+_GUARD = {"started": False, "t0": 0.0, "spec": None}
+
+
+def _start_guard(spec):
+    """Watchdog thread: a shard whose resident memory or wall time explodes (code under
+    test not terminating on a generated case) kills its own process; the parent then
+    reports a harness error (exit 2), never a violation - time is not an oracle."""
+    import threading
+
+    _GUARD["t0"] = time.monotonic()
+    _GUARD["spec"] = spec
+    if _GUARD["started"]:
+        return
+    _GUARD["started"] = True
+    max_rss = int(os.environ.get("VERIF_SHARD_MAX_RSS_MB", "12000")) * 1024 * 1024
+    max_wall = float(os.environ.get("VERIF_SHARD_MAX_WALL_S", "14400"))
+    page = os.sysconf("SC_PAGE_SIZE")
+
+    def run():
+        while True:
+            time.sleep(2.0)
+            try:
+                with open("/proc/self/statm") as f:
+                    rss = int(f.read().split()[1]) * page
+            except OSError:
+                rss = 0
+            wall = time.monotonic() - _GUARD["t0"]
+            if rss > max_rss or wall > max_wall:
+                sys.stderr.write(
+                    f"GUARD: shard {_GUARD['spec']} exceeded its guard (rss={rss >> 20} MiB, "
+                    f"wall={wall:.0f}s); aborting this worker\n"
+                )
+                sys.stderr.flush()
+                os._exit(70)
+
+    threading.Thread(target=run, daemon=True).start()
+
+
 def _worker(args):
     modname, spec, seed = args
+    if not os.environ.get("VERIF_INLINE"):
+        _start_guard(spec)
     try:
         os.environ["PYTHONHASHSEED"] = os.environ.get("PYTHONHASHSEED", "0")
         mod = importlib.import_module(modname)
@@ -194,6 +234,7 @@ def hypothesis_search(strategy, body, seed, max_examples, res, batch=None, deadl
             f = body(case)
             if f is not None:
                 last["f"] = f
+                last.setdefault("first", f)
                 raise Found(f.message)
 
         try:
@@ -203,6 +244,20 @@ def hypothesis_search(strategy, body, seed, max_examples, res, batch=None, deadl
             return
         except hypothesis.errors.Unsatisfiable as e:
             raise HarnessError(f"generator unsatisfiable: {e}")
+        except BaseException as e:  # noqa: BLE001
+            # Hypothesis wraps a failure that did not reproduce while shrinking (an effect that
+            # only happens once per process, e.g. a first import) in Flaky / FlakyFailure. The
+            # oracle did observe a violation: report the first one seen, unshrunk.
+            if isinstance(e, (KeyboardInterrupt, SystemExit)):
+                raise
+            if "first" in last:
+                last["first"].details["note"] = (
+                    "violation observed once; it did not reproduce when Hypothesis re-ran the "
+                    "case in the same process (process-level state), reported unshrunk"
+                )
+                res.failures.append(last["first"])
+                return
+            raise
         done += n
         b += 1
 
@@ -254,9 +309,18 @@ def run_check(modname, prop, tier, seed):
         if nproc <= 1 or os.environ.get("VERIF_INLINE"):
             outs = [_worker(j) for j in jobs]
         else:
+            from concurrent.futures import ProcessPoolExecutor
+            from concurrent.futures.process import BrokenProcessPool
+
             ctx = multiprocessing.get_context("fork")
-            with ctx.Pool(nproc, maxtasksperchild=None) as pool:
-                outs = pool.map(_worker, jobs, chunksize=1)
+            try:
+                with ProcessPoolExecutor(max_workers=nproc, mp_context=ctx) as pool:
+                    outs = list(pool.map(_worker, jobs, chunksize=1))
+            except BrokenProcessPool:
+                raise HarnessError(
+                    "a shard worker died (memory/time guard or crash): the code under test did "
+                    "not terminate or exhausted memory on a generated case; inconclusive"
+                )
         for o in outs:
             if o[0] == "error":
                 raise HarnessError(f"shard {o[2]} failed:\n{o[1]}")
